@@ -80,6 +80,15 @@ Theorem C01_minus_zero_witness :
   /\ ins_seen env0 nz_sig nz_args <> ins_of nz_sig nz_args.
 Proof. exact EndToEndExamples.nz_minus_zero_arrives_as_plus_zero. Qed.
 
+(* why [outs_skippable] is needed (and what the code does without it): int deep(out Node o, int a) with the caller's o
+   nested 256 structs deep succeeds, with 257 structs (513 nesting levels on the wire, skip limit 512) the call fails
+   before the implementation is reached - on the model and on the code (known finding
+   e2e/spurious-error/prefilled-out-argument-deeper-than-skip-limit) *)
+Theorem C01_deep_out_argument_witness :
+  args_typed env0 (fs_args dp_sig) [dp_chain 256 1; VInt 7] /\
+  dp_call 256 = COk (Some (VInt 5)) [VStruct [VInt 1; VList []]] [] /\ dp_call 257 = CErr 1 sys_msg false.
+Proof. exact (conj EndToEndExamples.dp_257_typed (conj EndToEndExamples.dp_256_structs_pass EndToEndExamples.dp_257_structs_fail)). Qed.
+
 (* success, no codec hypothesis: well-formed schemas (tags ascending, defaults on scalars, by-value nesting <= k), the
    two packet schemas as regenerated from the code, any signature within the static size conditions, out arguments the
    dispatcher can pass over,
@@ -247,6 +256,7 @@ Proof. intros e k sid_req sid_rsp max impl Ps i qs sent cq written cp Hwf Hk Hq 
 Print Assumptions C01_transparent_ok_any_outs.
 Print Assumptions C01_prefilled_out_witness.
 Print Assumptions C01_minus_zero_witness.
+Print Assumptions C01_deep_out_argument_witness.
 Print Assumptions C01_transparent_ok.
 Print Assumptions C01_transparent_err.
 Print Assumptions C01_oneway.
